@@ -787,9 +787,73 @@ func (st *inlineState) expand(call *ast.CallExpr, cfd *FuncDecl, depth int, tail
 		return &ast.AssignStmt{Lhs: lhs, TokPos: pos, Tok: token.ASSIGN, Rhs: vals}
 	}
 	if tok == token.DEFINE && len(targets) == nres && endsWithSingleReturn(body) {
-		// deliver with the defining assignment itself
+		// deliver with the defining assignment itself; where the value returned is a local of
+		// the callee and the caller defines a fresh variable from it, the two are one variable
+		unified := map[int]bool{}
+		if n := len(body.List); n > 0 {
+			if r, ok := body.List[n-1].(*ast.ReturnStmt); ok && len(r.Results) == nres {
+				for i := range r.Results {
+					rid, ok1 := ast.Unparen(r.Results[i]).(*ast.Ident)
+					tid, ok2 := targets[i].(*ast.Ident)
+					if !ok1 || !ok2 {
+						continue
+					}
+					cv, _ := st.info.Uses[rid].(*types.Var)
+					tv, _ := st.info.Defs[tid].(*types.Var)
+					if cv == nil || tv == nil || cv.IsField() || !types.Identical(cv.Type(), tv.Type()) {
+						continue
+					}
+					// cv must be declared inside the callee body (not a parameter or a captured variable)
+					declared := false
+					ast.Inspect(body, func(m ast.Node) bool {
+						if id, ok := m.(*ast.Ident); ok && st.info.Defs[id] == types.Object(cv) {
+							declared = true
+						}
+						return true
+					})
+					if !declared {
+						continue
+					}
+					ast.Inspect(body, func(m ast.Node) bool {
+						if id, ok := m.(*ast.Ident); ok {
+							if st.info.Uses[id] == types.Object(cv) {
+								st.info.Uses[id] = tv
+								id.Name = tv.Name()
+							}
+							if st.info.Defs[id] == types.Object(cv) {
+								st.info.Defs[id] = tv
+								id.Name = tv.Name()
+							}
+						}
+						return true
+					})
+					unified[i] = true
+				}
+			}
+		}
 		mkAssign = func(vals []ast.Expr, pos token.Pos) ast.Stmt {
-			return &ast.AssignStmt{Lhs: targets, TokPos: pos, Tok: token.DEFINE, Rhs: vals}
+			var lhs, rhs []ast.Expr
+			for i := range vals {
+				if unified[i] {
+					continue
+				}
+				lhs = append(lhs, targets[i])
+				rhs = append(rhs, vals[i])
+			}
+			if len(lhs) == 0 {
+				return &ast.EmptyStmt{Semicolon: pos}
+			}
+			tk := token.DEFINE
+			allOld := true
+			for _, l := range lhs {
+				if id, ok := l.(*ast.Ident); ok && st.info.Defs[id] != nil {
+					allOld = false
+				}
+			}
+			if allOld {
+				tk = token.ASSIGN
+			}
+			return &ast.AssignStmt{Lhs: lhs, TokPos: pos, Tok: tk, Rhs: rhs}
 		}
 	} else if targets == nil || tok == token.DEFINE || len(targets) != nres {
 		// results go to fresh temporaries (or to the variables being defined, declared first)
